@@ -522,7 +522,7 @@ pub fn spec_tokens(a: &Ast, fl: Fl, cx: &mut Ctx, out: &mut String) -> bool {
 }
 
 const HAY_ALPHA: &[&str] = &["a", "b", "c", "a", "b", "é", "K", "k", "s", "S", "\u{17F}", "\u{212A}", "ß", "\u{1F600}", "\n", "x", "_", "1", "A", "\u{2028}", "É", "ẞ",
-    "\x7f", "\u{80}", "\u{7FF}", "\u{800}", "\u{FFFF}", "\u{10000}", "\u{FF01}"];
+    "\x7f", "\u{80}", "\u{7FF}", "\u{800}", "\u{FFFF}", "\u{10000}", "\u{FF01}", "\0", "\0"];
 
 /// Deterministic family: every body in every context under several flag sets (run by shard 0).
 fn spec_family() -> Vec<(Ast, &'static str)> {
